@@ -72,17 +72,21 @@ CHECKS["C30"] = _sem("Programs with annotations inside, on and outside [0,1] (li
                      "DESIGN.md §5 C30")
 
 CHECKS["C11"] = dict(
-    category="exploration",
-    text="Histories of add_atom / add_and / add_or (readonly and mutable) / add_disjunct / negate / add_name are run on a "
-         "real LogicFormula under option vectors (auto_compact, keep_order, keep_duplicates, keep_all, avoid_name_clash, "
-         "max_arity); after every call the real node table and returned key are recorded and TLC (JudgeBuilder.tla over "
-         "AOG.tla) checks MeaningPreserved: every key returned so far has, for every atom assignment, the well-founded "
-         "value its call has in the ideal (no folding, no sharing) graph - including keys returned before a later "
-         "add_disjunct.",
+    category="model_checking",
+    text="Layer B: FormulaBuilder.tla is a state machine transcribed branch by branch from LogicFormula (add_atom, "
+         "_add_compound's compaction cascade, the three hash-consing indexes, add_disjunct with max_arity splitting, "
+         "negate); TLC checks MeaningPreserved (every key ever returned keeps the well-founded meaning of its call, also "
+         "after later add_disjunct calls) in every state of every call history within the bound, for five option vectors. "
+         "Every explored history is exported and replayed on the real class (keys and node tables must be the model's); "
+         "random and scenario histories recorded from the real class are validated step by step against the model "
+         "(JudgeBuilderTrace.tla) and judged by Layer A (JudgeBuilder.tla over AOG.tla). Only Layer A says VIOLATION; a "
+         "model/code mismatch is drift and triggers the Layer-A judgement of the real data.",
     design_ref="DESIGN.md §5 C11",
-    note="Trusted: TLC + AOG.tla well-founded valuation, the recording wrapper. Histories <= 9 calls over 3 atoms; "
-         "no cycles through negation; add_disjunct's own return value is not treated as a key.",
-    technique="TLA+ spec of the ideal builder and AND/OR-graph meaning (AOG.tla) judged by TLC on recorded builder histories",
+    note="Trusted: TLC + AOG.tla well-founded valuation, the recording wrapper. Exhaustive part: 2 atoms + 2 (thorough: 3) "
+         "further calls with <= 2 children; random histories <= 9 calls over 3 atoms; no cycles through negation; node names "
+         "are not modelled; add_disjunct's own return value is not treated as a key.",
+    technique="TLC model checking of an implementation-shaped TLA+ builder model, spec->code replay of all explored histories, "
+              "code->spec trace validation, Layer-A judge on recorded histories",
 )
 
 _TV_NOTE = ("Trusted: TLC + spec/AOG.tla, Circuit.tla, the artefact dumper (public iteration over formulas, "
